@@ -45,7 +45,9 @@ RULE = (
     'centres not judged).  Inverses (only when the forward result was '
     'right): date2num(getTimes()) == stored numbers (rtol 1e-12, atol 1 us '
     'in the unit; a raise inside netCDF4/cftime is counted, not judged) and '
-    'time2idx(getTimes()) == arange(n).  coordutil.gettimes (functional '
+    'time2idx(getTimes()) == arange(n); in 3/4 of the cases date2num is '
+    'also given the same instants re-expressed at UTC-06:00, +05:30 or '
+    '+09:00 and must return the same numbers.  coordutil.gettimes (functional '
     'form, centres only) is judged on the same instants.  ioapi: TFLAG files '
     '(regular series and irregular rows), SDATE/STIME/TSTEP-only files, '
     'ioapi_base.from_arrays, each optionally passed through '
@@ -289,7 +291,8 @@ def case_cf(draw):
     return dict(kind='cf', ref=[y, mo, d, h, mi, s], off=off,
                 spell=dict(pad=pad, sep=sep, tfmt=tfmt, suffix=suffix),
                 unit=unit, calendar=cal, dtype=dtype, values=vals,
-                bounds=bounds, edges=edges, clean=bool(clean))
+                bounds=bounds, edges=edges, clean=bool(clean),
+                rezone=draw(st.sampled_from([None, -360, 330, 540])))
 
 
 TSTEPS = [10000, 10000, 10000, 3000, 60000, 240000, 1000000, 500, 130, 15,
@@ -808,6 +811,35 @@ def check_cf(spec, r):
                    nums.tolist()[:4], stored[:4], units_of(spec),
                    spec['calendar']), klass='%s/%s%s' % (fam, sub, sym))
         return
+    # the same instants re-expressed in another time zone must give the same
+    # numbers (the instant, not its spelling, is what is converted)
+    rz = spec.get('rezone')
+    if rz is not None:
+        tz = dt.timezone(dt.timedelta(minutes=rz))
+        moved = np.array([_aware(t).astimezone(tz) for t in _as_list(cent)])
+        with np.errstate(all='ignore'):
+            exc, nums2 = attempt(f.date2num, moved)
+        if exc is not None:
+            r.label('date2num-rezoned-raised')
+        else:
+            r.label('date2num-rezoned:%+d' % rz)
+            nums2 = np.atleast_1d(np.asarray(nums2))
+            ok2 = nums2.shape == (n,)
+            if ok2:
+                for a, v in zip(nums2.tolist(), stored):
+                    atol = Fraction(1, CT.UNIT_US[unit]) * (
+                        1 + int(abs(Fraction(v)) * CT.UNIT_US[unit] *
+                                Fraction(1, 2 ** 49)))
+                    if abs(Fraction(a) - Fraction(v)) > \
+                            Fraction(1, 10 ** 12) * abs(Fraction(v)) + atol:
+                        ok2 = False
+            if not ok2:
+                r.fail('cf-date2num-rezoned', 'date2num of getTimes() '
+                       're-expressed at UTC%+d min = %r but the stored '
+                       'numbers are %r (units %r)' % (
+                           rz, nums2.tolist()[:4], stored[:4],
+                           units_of(spec)), klass=fam)
+                return
     with np.errstate(all='ignore'):
         exc, idx = attempt(f.time2idx, cent)
     if exc is not None:
